@@ -7,9 +7,10 @@ import RwsDriver.Base64
 import RwsDriver.Cors
 import RwsDriver.RangeM
 import RwsDriver.Pool
+import RwsDriver.Request
 open RwsDriver
 
-def allOps : List (String × Op) := base64Ops ++ corsOps ++ rangeMOps ++ poolOps
+def allOps : List (String × Op) := base64Ops ++ corsOps ++ rangeMOps ++ poolOps ++ requestOps
 
 def runLine (line : String) : String :=
   match (line.trimAscii.toString.splitOn " ").filter (· ≠ "") with
